@@ -290,7 +290,7 @@ func getDCMISensorInfo(b *BMC, _ *Session, _ uint8, data []byte) (uint8, []byte)
 	if hi > len(ids) {
 		hi = len(ids)
 	}
-	total := len(ids)
+	total := len(ids) + b.DCMIOvercount // (a BMC whose total is larger than what it serves: the pages run dry early)
 	if total > 0xFF {
 		total = 0xFF
 	}
